@@ -19,6 +19,7 @@ from lang.denote import OracleUndefined, denote
 from lang.prog import IllTyped, leaves_of, show, type_of
 
 MAX_PATHS = 64
+CHECK_DTYPE = [True]
 
 
 # --------------------------------------------------------------------------------------------------
@@ -119,7 +120,25 @@ def result_cells(result, point):
                 o[i] = r[i].item()
             return o
         return r
+    # a lazy result: bind the remaining integer inputs at this point (the property's "once its remaining free
+    # inputs are bound to concrete values") and expect a ground value
+    if _depth[0] == 0 and result.inputs:
+        sub = {k: Number(int(point[k]), d.dtype) for k, d in result.inputs.items()
+               if k in point and isinstance(d.dtype, int) and d.shape == ()}
+        if sub:
+            _depth[0] += 1
+            try:
+                try:
+                    r2 = result(**sub)
+                except Exception as e:  # noqa
+                    raise Declined("binding integer inputs of lazy %s: %s" % (type(result).__name__, type(e).__name__))
+                return result_cells(r2, point)
+            finally:
+                _depth[0] -= 1
     raise Declined("result is a lazy %s" % type(result).__name__)
+
+
+_depth = [0]
 
 
 def all_points(pred_inputs):
@@ -128,7 +147,7 @@ def all_points(pred_inputs):
         yield dict(zip(names, pt))
 
 
-def check_result_type(result, pred_inputs, pred_output, exact_inputs=False):
+def check_result_type(result, pred_inputs, pred_output, exact_inputs=False, check_dtype=True):
     """structural (concrete) side conditions shared by C01/C03/C04/C06: inputs of the result are among the
     predicted ones with the same domains; output shape matches; dtype kind matches."""
     got = funsor_inputs(result)
@@ -142,6 +161,8 @@ def check_result_type(result, pred_inputs, pred_output, exact_inputs=False):
     dtype, shape = pred_output
     if tuple(result.output.shape) != tuple(shape):
         raise TypeViolation("output shape %s, predicted %s" % (tuple(result.output.shape), tuple(shape)))
+    if not check_dtype:
+        return
     if dtype == "real":
         if result.output.dtype != "real":
             raise TypeViolation("output dtype %r, predicted real" % (result.output.dtype,))
@@ -175,7 +196,7 @@ def _real_env(pred_inputs, symbolic, rng):
     return env
 
 
-def run_concrete(prog, builder, leaves, real_env, pred_inputs, pred_output, oracle_fn=None, check_types=True):
+def run_concrete(prog, builder, leaves, real_env, pred_inputs, pred_output, oracle_fn=None, check_types=True, check_dtype=None):
     """returns (mismatches, n_cells, result) ; raises Declined"""
     try:
         with np.errstate(all="ignore"):
@@ -185,7 +206,7 @@ def run_concrete(prog, builder, leaves, real_env, pred_inputs, pred_output, orac
     except Exception as e:  # noqa
         raise Declined("%s: %s" % (type(e).__name__, str(e)[:200]))
     if check_types:
-        check_result_type(result, pred_inputs, pred_output)
+        check_result_type(result, pred_inputs, pred_output, check_dtype=CHECK_DTYPE[0] if check_dtype is None else check_dtype)
     try:
         with np.errstate(all="ignore"):
             ground = bind_reals(result, real_env)
@@ -220,9 +241,10 @@ def _pyval(x):
 
 
 def check_prog(prog, builder, seed=0, twin=False, oracle_fn=None, label="", extra_obligation=None,
-               timeout_ms=None, int_range_check=True, concolic=True, monitors=()):
+               timeout_ms=None, int_range_check=True, concolic=True, monitors=(), check_dtype=True):
     """Decide `builder(prog)` == denote(prog) for all contents.  Returns Outcome."""
     install()
+    CHECK_DTYPE[0] = check_dtype
     t0 = time.time()
     out = Outcome(status="ok", prog=show(prog), label=label, detail="", paths=0, cells=0, nontrivial=False,
                   solver_s=0.0, twin=None, defined=0)
